@@ -418,6 +418,8 @@ class Resolver:
             while isinstance(e, ast.Subscript):
                 e = e.value
                 k = 'elem' if kind in ('assign', 'elem') else kind
+            if isinstance(e, ast.Attribute) and e.attr == 'attrs':
+                return      # h5py attribute manager of a group/file: not package state
             if isinstance(e, ast.Attribute):
                 owner = self._owner_classes(func, e.value)
                 if owner:
